@@ -221,7 +221,7 @@ def r09_5(prog: Program, rep: Report):
         child = child_of(p)
         if any(T.is_call_to(c, "typelib.py.refs.forwardref") and "module" in dict(c[3]) for c in p.calls()):
             atoms = T.derive_atoms(p.guards())
-            if not any(val and T.is_call_to(a, "inspect.isclass") and len(a[2]) == 1 and (a[2][0] == child or T.contains(a[2][0], lambda y: T.is_call_to(y, f"{MOD}._level"))) for a, val in atoms):
+            if not any(val and T.is_call_to(a, "inspect.isclass") and len(a[2]) == 1 and (a[2][0] == child or (T.contains(a[2][0], lambda y: T.is_call_to(y, f"{MOD}._level")) and not T.contains(a[2][0], lambda y: T.is_call_to(y, f"{C.INSP}.unwrap", f"{C.INSP}.origin", "typing.get_origin")))) for a, val in atoms):
                 guarded = False
     if not guarded and not name_bad:
         name_bad = True
@@ -230,6 +230,30 @@ def r09_5(prog: Program, rep: Report):
     rep.check(not name_bad, "R09.5", q, f.loc, "the deferred node's name keeps the child's parameters (only classes are deferred by name)", name_why, detail="name<-qualname")
     rep.check(not mod_bad, "R09.5", q, f.loc, "the deferred node's module comes from the child's __module__", mod_why, detail="module<-qualname")
     rep.check(not qual_bad, "R09.5", q, f.loc, "a deferred class is named by its whole qualified name", qual_bad, detail="name-keeps-qualifier")
+
+
+def leaf_test_object(prog: Program, rep: Report, rule: str):
+    """The leaf test of the walk (is this a Literal / an unresolvable form: do not enumerate members) is asked of the very object
+    whose members are enumerated otherwise: both look at the *unwrapped* annotation, or `Final[Literal['a']]` / an alias of a
+    NewType of a Literal is not recognised and the Literal's values are walked as if they were member annotations."""
+    f, ps = graph_paths(prog)
+    norm = lambda tm: T.rewrite(tm, lambda y: ("call", ("ref", f"{C.INSP}.unwrap"), (("attr", y[1], "type"),), ()) if y[0] == "attr" and y[2] == "unwrapped" else None)  # noqa: E731
+    LEAF = (f"{C.INSP}.isliteral", f"{C.INSP}.isunresolvable")
+    sites, bad = 0, []
+    for p in ps:
+        lv = [x for tm in p.all_terms() for x in T.walk(tm) if T.is_call_to(x, f"{MOD}._level") and x[2]]
+        if not lv:
+            continue
+        subject = norm(lv[0][2][0])
+        for a, val in T.derive_atoms(p.guards()):
+            if T.is_call_to(a, *LEAF) and a[2]:
+                sites += 1
+                if norm(a[2][0]) != subject:
+                    bad.append(f"{T.refname(a[1]).rsplit('.', 1)[-1]}({T.show(a[2][0])[-40:]}) while members are taken from {T.show(lv[0][2][0])[-50:]}")
+    if not sites:
+        rep.undecided(rule, f.qualname, f.loc, "no leaf test found on the paths that enumerate members", detail="leaf-test-object")
+        return
+    rep.check(not bad, rule, f.qualname, f.loc, "the leaf test and the member enumeration look at the same (unwrapped) object", f"the leaf test is asked of another object than the one whose members are enumerated: {sorted(set(bad))[:2]} -- under Final[...] or a two-step alias/NewType chain a Literal is not recognised, its values are walked as member annotations ('red' becomes a string reference: NameError when the routine is built)", detail="leaf-test-object")
 
 
 def r09_3(prog: Program, rep: Report):
@@ -445,6 +469,7 @@ def run(prog: Program, rep: Report, tier: str):
     r09_8(prog, rep)
     rep.rule("R09.9", "leaf test of the walk: no concrete class (incl. one defining __call__) is a leaf, the documented special forms are", floor=1)
     C.leaf_test_agreement(prog, rep, "R09.9")
+    leaf_test_object(prog, rep, "R09.9")
     rep.rule("R09.4", "reference inputs delegate to the memoised self; plain inputs = [*itertypes(t)]", floor=4)
     rep.rule("R09.7", "references are named by qualified name and own module (refs.forwardref rules, shared with R11.7)", floor=5)
     rep.rule("R09.6", "termination: revisits of every type with members are cut (shared with R07.6)", floor=1)
